@@ -1,1 +1,33 @@
-(* Props/C10.v -- stub, to be filled in *)
+(* Props/C10.v -- property theorems only: Theorem / exact lemma / Check (pins the statement) / Print Assumptions.
+
+   What is proved here is about the executable model coq/Model/Roots.v -- the SAME definition whose
+   float instance (IEEE binary64 + the recorded libm calls) follows src/polynomial/mod.rs bit for bit on
+   every case of every check run.  NOT proved (and false of the code on the recorded classes
+   KF-C10-A/B/C/E): accuracy of the floating-point values returned, convergence of Laguerre's iteration. *)
+From Coq Require Import List Arith.
+From OV Require Import Base.Panic Base.Arith gen.Params Model.Roots Proofs.Roots.
+Import ListNotations.
+
+(* ---- any arithmetic (floats with any oracle table included) ---- *)
+
+(* poly_solve returns exactly n = |coeffs| - 1 values whenever it returns *)
+Theorem roots_length : forall (RA : RootArith) coeffs refine rs tr,
+  poly_solve RA coeffs refine = Ok (rs, tr) -> length rs = length coeffs - 1.
+Proof. intros RA coeffs refine rs tr. exact (roots_length_lemma RA coeffs refine rs tr). Qed.
+Check roots_length : forall (RA : RootArith) coeffs refine rs tr,
+  poly_solve RA coeffs refine = Ok (rs, tr) -> length rs = length coeffs - 1.
+Print Assumptions roots_length.
+
+(* a degree-0 polynomial is rejected: the guard panic of mod.rs:256 *)
+Theorem degree0_rejected : forall (RA : RootArith) (c : KK RA) refine, poly_solve RA [c] refine = Panic Guard.
+Proof. intros RA c refine. exact (degree0_rejected_lemma RA c refine). Qed.
+Check degree0_rejected : forall (RA : RootArith) (c : KK RA) refine, poly_solve RA [c] refine = Panic Guard.
+Print Assumptions degree0_rejected.
+
+(* laguer makes at most MAXIT - 1 passes, MAXIT = MT * MR regenerated from the source *)
+Theorem laguer_bounded : forall (RA : RootArith) a x l,
+  laguer RA a x = Ok l -> liters l <= LAGUER_MT * LAGUER_MR - 1.
+Proof. intros RA a x l. exact (laguer_bounded_lemma RA a x l). Qed.
+Check laguer_bounded : forall (RA : RootArith) a x l,
+  laguer RA a x = Ok l -> liters l <= LAGUER_MT * LAGUER_MR - 1.
+Print Assumptions laguer_bounded.
